@@ -274,6 +274,9 @@ func FamilyCrash(tier string) []*Scenario {
 		Plans: []PlanSpec{{Blocks: []BlockSpec{{Cont: ChkD(2, A()), Seqs: []SeqSpec{Seq(A())}, Conc: 1}}}}})
 	// retries: the attempt log is what recovery interprets
 	add("retry-t-ok", PlanSpec{Blocks: []BlockSpec{{Seqs: []SeqSpec{Seq(AR(1, Trans, OK), A())}}}})
+	// a retryable error that carries no detail at all: the stored attempt must still say "failed" after the restart
+	add("retry-tz", PlanSpec{Blocks: []BlockSpec{{Seqs: []SeqSpec{Seq(AR(1, TransZero), A())}}}})
+	add("retry-tz-ok", PlanSpec{Blocks: []BlockSpec{{Seqs: []SeqSpec{Seq(AR(2, TransZero, TransZero, OK), A())}}}})
 	add("retry-ok-r1", PlanSpec{Blocks: []BlockSpec{{Conc: 2, Seqs: []SeqSpec{Seq(AR(1, OK), A()), Seq(AR(3, Trans, OK))}}}})
 	return out
 }
